@@ -805,13 +805,19 @@ def run(case, want_lines):
                     outs.append([Atom("skip")])
                     lines.append([Atom("skip")])
                     continue
-                wmark = len(watcher.log)
-                if op[0] == "ohold":
-                    font.dispatcher.holdNotifications(observer=watcher)
-                    oheld_at = (len(rec.log), len(watcher.log))
-                    owed_held = []
-                else:
-                    font.dispatcher.releaseHeldNotifications(observer=watcher)
+                try:
+                    if op[0] == "ohold":
+                        font.dispatcher.holdNotifications(observer=watcher)
+                        oheld_at = (len(rec.log), len(watcher.log))
+                        owed_held = []
+                    else:
+                        font.dispatcher.releaseHeldNotifications(observer=watcher)
+                except Exception as e:
+                    outs.append([Atom("err"), Atom(type(e).__name__), op[0]])
+                    lines.append([Atom("skip")])
+                    viol.append(dict(clause="C02/hold-release-raised", signature="C02/hold-release-raised/%s" % op[0], step=step,
+                                     error="%s: %s" % (type(e).__name__, str(e)[:200])))
+                    continue
                 line = [Atom("same"), 0]
             elif op[0] == "hold" and oheld_at is not None:
                 outs.append([Atom("skip")])
@@ -826,7 +832,14 @@ def run(case, want_lines):
                     outs.append([Atom("skip")])
                     lines.append([Atom("skip")])
                     continue
-                obj.releaseHeldNotifications()
+                try:
+                    obj.releaseHeldNotifications()
+                except Exception as e:
+                    outs.append([Atom("err"), Atom(type(e).__name__), op[0]])
+                    lines.append([Atom("skip")])
+                    viol.append(dict(clause="C02/hold-release-raised", signature="C02/hold-release-raised/release", step=step,
+                                     error="%s: %s" % (type(e).__name__, str(e)[:200])))
+                    continue
                 holds[i] -= 1
                 line = [Atom("release"), i]
             tree.refresh()
